@@ -21,6 +21,13 @@ def specs(tier):
                          env=dict(VB_SLEN=slen, VB_FIRST=first), bounds=dict(string="any Unicode string of length <= %d" % slen,
                                                                              first_char="class %s of ;= ,\"%%tab / other" % first,
                                                                              dialect="inferred, or supplied gff3 default")))
+    if tier == "thorough":
+        alpha = ';= ,"%\ta1'
+        for i, c1 in enumerate(';= ,"%\t'):
+            for c2 in alpha:
+                out.append(XSpec("total[structural alphabet,len<=5,starts %r%r]" % (c1, c2), H, "cond_total", "reach_total", timeout=1500,
+                                 env=dict(VB_SLEN=5, VB_FIRST=str(i), VB_ALPHA=alpha, VB_SECOND=c2),
+                                 bounds=dict(string="every string of length <= 5 over the structural alphabet %r starting %r%r" % (alpha, c1, c2))))
     # (b) supplied dialect: every gff3-style dialect (sep x trailing x repeated x quoted) and GTF-style ones
     for sep, trail, rep, quoted in itertools.product(_par.SEPS, ("0", "1"), ("0", "1"), ("0", "1")):
         env = dict(VB_FMT="gff3", VB_SEP=sep, VB_TRAIL=trail, VB_REP=rep, VB_QUOTED=quoted, VB_VLEN=1)
